@@ -23,6 +23,11 @@ pub enum Site {
     PathSegments,
     PathSegmentsRooted,
     MethodArgs,
+    MethodArgsSerialized,
+    PpttResourcesStandalone,
+    RhctIsaStandalone,
+    CximsStandalone,
+    SideCacheStandalone,
     ArgIndex,
     LocalIndex,
     FieldWidthNamed,
@@ -48,7 +53,12 @@ pub enum Site {
     RqscResources,
 }
 
-pub const SITES: [Site; 28] = [
+pub const SITES: [Site; 33] = [
+    Site::MethodArgsSerialized,
+    Site::PpttResourcesStandalone,
+    Site::RhctIsaStandalone,
+    Site::CximsStandalone,
+    Site::SideCacheStandalone,
     Site::PackageElements,
     Site::PackageBuilderElements,
     Site::PathSegments,
@@ -84,7 +94,11 @@ impl Site {
     pub fn max(self) -> u64 {
         match self {
             Site::PackageElements | Site::PackageBuilderElements | Site::PathSegments | Site::PathSegmentsRooted => 255,
-            Site::MethodArgs => 7,
+            Site::MethodArgs | Site::MethodArgsSerialized => 7,
+            Site::PpttResourcesStandalone => 58,
+            Site::RhctIsaStandalone => 65_525,
+            Site::CximsStandalone => 255,
+            Site::SideCacheStandalone => 65_535,
             Site::ArgIndex => 6,
             Site::LocalIndex => 7,
             Site::FieldWidthNamed | Site::FieldWidthReserved => (1 << 28) - 1,
@@ -118,7 +132,9 @@ impl Site {
         match self {
             Site::PackageElements | Site::PackageBuilderElements => (vec![0, 1, 254, 255], vec![256, 257, 300, 511, 512, 65_536]),
             Site::PathSegments | Site::PathSegmentsRooted => (vec![1, 2, 3, 254, 255], vec![256, 257, 258, 259, 260, 261, 511, 512, 513, 1000, 1279, 1280]),
-            Site::MethodArgs => (vec![0, 7], vec![8, 9, 15, 16, 255]),
+            Site::MethodArgs | Site::MethodArgsSerialized => (vec![0, 1, 7], vec![8, 9, 10, 12, 15, 16, 17, 128, 255]),
+            Site::RhctIsaStandalone => (vec![0, 1, m - 1, m], vec![m + 1, m + 2, 65_534, 65_535, 65_536, 70_000]),
+            Site::SideCacheStandalone => (vec![0, m], vec![m + 1, m + 2, 70_000]),
             Site::ArgIndex => (vec![0, 6], vec![7, 8, 255]),
             Site::LocalIndex => (vec![0, 7], vec![8, 9, 255]),
             Site::FieldWidthNamed | Site::FieldWidthReserved => (vec![0, 63, m - 1, m], vec![m + 1, m + 2, 1 << 29, 1 << 32, u64::MAX - 1, u64::MAX]),
@@ -234,11 +250,45 @@ pub fn exercise(site: Site, v: u64) -> Outcome {
                 };
                 Outcome::Returned(framing)
             }
-            Site::MethodArgs => {
+            Site::MethodArgs | Site::MethodArgsSerialized => {
+                let ser = site == Site::MethodArgsSerialized;
                 let mut b = Vec::new();
-                aml::Method::new("MET0".into(), v as u8, false, vec![]).to_aml_bytes(&mut b);
+                aml::Method::new("MET0".into(), v as u8, ser, vec![]).to_aml_bytes(&mut b);
                 let flags = b[b.len() - 1];
-                Outcome::Returned(if (flags & 7) as u64 == v && flags & 0xf0 == 0 { None } else { Some(format!("method flags {:#04x} encode {} arguments for {}", flags, flags & 7, v)) })
+                Outcome::Returned(if (flags & 7) as u64 == v && flags & 0xf0 == 0 && (flags & 8 != 0) == ser { None } else { Some(format!("method flags {:#04x} encode {} arguments (serialized={}) for {} (serialized={})", flags, flags & 7, flags & 8 != 0, v, ser)) })
+            }
+            Site::PpttResourcesStandalone => {
+                // the node is a public Aml object: serialised on its own it must be refused or framed
+                let mut t = acpi_tables::pptt::PPTT::new(*b"OEMIDX", *b"TABLEID0", 1);
+                let c = t.add_cache(acpi_tables::pptt::CacheNodeBuilder::default().to_node());
+                let mut n = acpi_tables::pptt::ProcessorNode::new(None, 1);
+                for _ in 0..v {
+                    n = n.add_cache(&c);
+                }
+                let b = ser(&n);
+                Outcome::Returned(if b[1] as usize == b.len() { None } else { Some(format!("processor node length byte {} for {} bytes", b[1], b.len())) })
+            }
+            Site::RhctIsaStandalone => {
+                let n = acpi_tables::rhct::IsaStringNode::new(static_text(v as usize));
+                let b = ser(&n);
+                let lf = u16::from_le_bytes([b[2], b[3]]) as usize;
+                let sl = u16::from_le_bytes([b[6], b[7]]) as usize;
+                Outcome::Returned(if lf == b.len() && sl == v as usize + 1 { None } else { Some(format!("ISA node length field {} / string length field {} for a {}-byte node with a {}-byte string", lf, sl, b.len(), v)) })
+            }
+            Site::CximsStandalone => {
+                let mut x = acpi_tables::cedt::XorInterleaveMath::new(mk_gran(1));
+                for i in 0..v {
+                    x.add_xormap(i);
+                }
+                let b = ser(&x);
+                let lf = u16::from_le_bytes([b[2], b[3]]) as usize;
+                Outcome::Returned(if lf == b.len() && b[7] as u64 == v { None } else { Some(format!("CXIMS length field {} count byte {} for {} bytes / {} maps", lf, b[7], b.len(), v)) })
+            }
+            Site::SideCacheStandalone => {
+                let c = mk_side_cache(1, 2, 1, 1, 1, 1, 64, &(0..v).map(|i| i as u16).collect::<Vec<_>>());
+                let b = ser(&c);
+                let n = u16::from_le_bytes([b[30], b[31]]) as u64;
+                Outcome::Returned(if n == v && b.len() as u64 == 32 + 2 * v { None } else { Some(format!("side cache handle count field {} for {} handles", n, v)) })
             }
             Site::ArgIndex => {
                 let mut b = Vec::new();
@@ -424,7 +474,7 @@ pub fn check(site: Site, v: u64) -> Option<Violation> {
 }
 
 pub fn run(ctx: &Ctx) {
-    ctx.set_rule("for every encoded count/length field with a caller-controlled source (28 sites: package / package-builder elements, path segments, method arguments, Arg/Local index, named and reserved field widths, PkgLength >= 2^28 through the encoder and (thorough) a real 256 MiB buffer, word/dword/qword address ranges, PPTT private resources, CXIMS maps, HMAT SMBIOS handles, RIMT wires / id mappings / platform name, VIOT node count and handle offset, SLIT localities, RHCT ISA string and hart-info offsets, RQSC vendor data and resources): values at the field maximum (must be accepted and framed correctly, judged by the C03/C06 oracles) and above it (maximum+1, +2, far beyond; must panic), in this build and, through a second binary, in the build with the other overflow-check setting. A value above the maximum that returns bytes is a violation; the framing oracles then state which field disagrees. Non-trivial = a case above the field maximum (the at-maximum cases are controls); distinct = distinct (site, value, build).");
+    ctx.set_rule("for every encoded count/length field with a caller-controlled source (33 sites: package / package-builder elements, path segments, method arguments, Arg/Local index, named and reserved field widths, PkgLength >= 2^28 through the encoder and (thorough) a real 256 MiB buffer, word/dword/qword address ranges, PPTT private resources, CXIMS maps, HMAT SMBIOS handles, RIMT wires / id mappings / platform name, VIOT node count and handle offset, SLIT localities, RHCT ISA string and hart-info offsets, RQSC vendor data and resources): values at the field maximum (must be accepted and framed correctly, judged by the C03/C06 oracles) and above it (maximum+1, +2, far beyond; must panic), in this build and, through a second binary, in the build with the other overflow-check setting. A value above the maximum that returns bytes is a violation; the framing oracles then state which field disagrees. Non-trivial = a case above the field maximum (the at-maximum cases are controls); distinct = distinct (site, value, build).");
     ctx.assume("sizes that need >= 4 GiB of real data (u32 table Length overflow, SLIT with 65535 localities) are out of reach and not claimed");
     ctx.assume(&format!("this process: overflow checks {}", if overflow_checks_on() { "ON" } else { "OFF" }));
     let mut jobs: Vec<(Site, u64)> = Vec::new();
